@@ -2,6 +2,9 @@ package c10
 
 import (
 	"fmt"
+
+	"github.com/caddyserver/caddy/v2/modules/caddyhttp"
+	"github.com/caddyserver/caddy/v2/modules/caddyhttp/reverseproxy"
 	"net"
 	"net/http"
 	"net/netip"
@@ -143,12 +146,12 @@ func fwdPart(impl string) string {
 	return impl
 }
 
+// ipPart is everything that is derived from the attributed client address (before the attempts).
 func ipPart(impl string) string {
-	f := strings.Fields(impl)
-	if len(f) >= 2 {
-		return f[0] + " " + f[1]
+	if i := strings.Index(impl, " xff="); i >= 0 {
+		return impl[:i]
 	}
-	return impl
+	return strings.TrimSuffix(impl, " err")
 }
 
 // variants are the attacker's alternative choices of forwarding headers for the two-run relation.
@@ -229,18 +232,64 @@ func (p *prop) tagsAndOracle(k *kase, impl string, o *obs, out *core.Outcome) {
 		return
 	}
 
-	// ---------------- OM: the real `client_ip` matcher (ip_matchers.go) sees exactly the attributed address
+	// ---------------- OM: everything that consumes the attributed address sees exactly that address
 	{
-		mp, _ := parsePrefixes(k.matcherRanges())
+		mr := k.matcherRanges()
+		mz := append(make([]string, len(k.srvT)+len(k.hT)), fixedZones...)
+		var mp []netip.Prefix
+		mp = append(append(append(mp, sp...), hp...), fixedPrefixes...)
+		zoneMatch := func(a netip.Addr, zone string) bool {
+			for i, p := range mp {
+				if p.Contains(a) && (mz[i] == "" || mz[i] == zone) {
+					return true
+				}
+			}
+			return false
+		}
 		want := false
 		if a, err := netip.ParseAddr(o.clientIP); err == nil {
-			want = anyContains(mp, a)
+			want = zoneMatch(a, "")
 		}
 		if o.matchedIP != want {
-			fail("client-ip-matcher-disagrees", fmt.Sprintf("client_ip matcher over %v says %v for client_ip %q", k.matcherRanges(), o.matchedIP, o.clientIP))
+			fail("client-ip-matcher-disagrees", fmt.Sprintf("client_ip matcher over %v says %v for client_ip %q", mr, o.matchedIP, o.clientIP))
 		}
 		if o.matchedIP {
 			tag("client_ip-matcher:match")
+		}
+		// remote_ip: the socket address (host part if there is a port), zone compared with the range's zone
+		rhost := k.remote
+		if h, _, err := net.SplitHostPort(k.remote); err == nil {
+			rhost = h
+		}
+		rzone := ""
+		if i := strings.IndexByte(rhost, '%'); i >= 0 {
+			rzone = rhost[i+1:]
+			rhost = rhost[:i]
+			if j := strings.IndexByte(rzone, '%'); j >= 0 {
+				rzone = rzone[:j]
+			}
+		}
+		wantR := false
+		if a, err := netip.ParseAddr(rhost); err == nil {
+			wantR = zoneMatch(a, rzone)
+		}
+		if o.remoteHit != wantR {
+			fail("remote-ip-matcher-disagrees", fmt.Sprintf("remote_ip matcher over %v says %v for remote %q", mr, o.remoteHit, k.remote))
+		}
+		if o.remoteHit && rzone != "" {
+			tag("remote_ip-matcher:zoned-match")
+		}
+		if o.placeh != o.clientIP {
+			fail("client-ip-placeholder-differs", fmt.Sprintf("{http.vars.client_ip} = %q, client_ip = %q", o.placeh, o.clientIP))
+		}
+		if !o.logHas || o.logIP != o.clientIP {
+			fail("client-ip-log-field-differs", fmt.Sprintf("access log client_ip = %q (present %v), client_ip = %q", o.logIP, o.logHas, o.clientIP))
+		}
+		if info, ok := caddyhttp.GetVar(o.ctx, "reverse_proxy.proxy_protocol_info").(reverseproxy.ProxyProtocolInfo); ok {
+			a, err := netip.ParseAddr(o.clientIP)
+			if (err == nil) != info.AddrPort.IsValid() || (err == nil && info.AddrPort.Addr() != a) {
+				fail("proxy-protocol-address-differs", fmt.Sprintf("PROXY protocol address %v, client_ip %q", info.AddrPort, o.clientIP))
+			}
 		}
 	}
 
